@@ -1,3 +1,4 @@
+import RossModel.Lemmas.SourceTie
 import RossModel.Lemmas.Reassemble
 /-!
 # C02 — Fragmentation followed by in-order reassembly returns the original packet
@@ -48,5 +49,9 @@ example :
      match p.toFrames with
      | .ok fs => decide (p.data.length ≤ 28672) && fs.length == 3 && (reassemble fs == .ok p)
      | _ => false) = true := by decide
+
+/-! ### tie to the source text (constants regenerated from /repo by `bin/extract` on every run) -/
+/-- the model's `toFrames` is `to_frames` with the constants that stand in `src/packet.rs` (lengths 0..=30) -/
+theorem C02_src_fragmentation : SrcTie.fragOk = true := by decide
 
 end Ross.Props
